@@ -41,7 +41,7 @@ Print Assumptions C09_ptrace_table_signal.
     does die of it (the two limit signals end the run at once with the table's verdict) *)
 Theorem C09_ptrace_signal_delivery : forall st pgid pid sig,
   1 <= sig -> sig < 128 -> h_execved st = true -> zmem pid (h_traced st) = true ->
-  let o := handle st pgid pid (ws_of_stop sig 0) true true in
+  let o := handle st pgid pid (ws_of_stop sig 0) SoOk TrOk in
   (sig = 24 /\ o_status o = TimeLimit) \/ (sig = 25 /\ o_status o = OutputLimit) \/
   (o_status o = Normal /\ o_finished o = false /\ o_reqs o = [ReqCont (Z.of_N sig)] /\ o_state o = st).
 Proof. exact ptrace_signal_delivery. Qed.
